@@ -9,6 +9,8 @@ stable = set(base["stable_pass"])
 d = tempfile.mkdtemp(prefix="hedverif_base_")
 out = os.path.join(d, "r.xml")
 cmd = base["cmd"].replace("<file>", out)
+if len(sys.argv) > 1:
+    cmd = cmd.replace("cd /repo", "cd " + sys.argv[1])
 env = dict(os.environ)
 env.pop("HED_PYTHON_VERIF", None)
 p = subprocess.run(cmd, shell=True, capture_output=True, text=True, env=env)
